@@ -41,6 +41,33 @@ def call_args(n):
     return c[1:]
 
 
+def split_params(ft):
+    """Parameter type strings of a function type 'R (P1, P2) const'."""
+    depth, start, out, i0 = 0, None, [], None
+    for i, ch in enumerate(ft or ""):
+        if ch in "(<[":
+            if ch == "(" and depth == 0 and i0 is None:
+                i0 = i
+                start = i + 1
+            depth += 1
+        elif ch in ")>]":
+            depth -= 1
+            if ch == ")" and depth == 0 and i0 is not None:
+                out.append(ft[start:i].strip())
+                break
+        elif ch == "," and depth == 1 and i0 is not None:
+            out.append(ft[start:i].strip())
+            start = i + 1
+    return [p for p in out if p and p != "void"]
+
+
+def mutable_ref(ptype):
+    p = ptype.strip()
+    if p.endswith("&&"):
+        return False
+    return (p.endswith("&") or p.endswith("*")) and not p.startswith("const ")
+
+
 def call_object(n):
     """Object expression of a member call (obj.f(...)) or None."""
     if n.get("k") != "CXXMemberCallExpr":
